@@ -23,6 +23,7 @@
 
 #define MAXPOOL 64
 #define NKIND 13
+#define FREE_INIT_EVERY 37   /* every n-th iteration a thread releases and re-initialises its eav_t (cold object paths) */
 static char *pool[MAXPOOL]; static size_t plen[MAXPOOL]; static int npool = 0;
 static char *lp[MAXPOOL]; static size_t lplen[MAXPOOL];
 static char *dm[MAXPOOL]; static size_t dmlen[MAXPOOL];
@@ -127,6 +128,7 @@ static void *worker(void *p)
         out_t o;
         long long s = 0;
         if (t->niv < MAXIV) s = now_ns();
+        if (n % FREE_INIT_EVERY == FREE_INIT_EVERY - 1) { eav_free(e); memset(e, 0x3C, sizeof *e); eav_init(e); }
         do_call(kind, i, cfg, e, &o);
         if (t->niv < MAXIV) { t->iv[t->niv].s = s; t->iv[t->niv].e = now_ns(); t->iv[t->niv].kind = kind; t->niv++; }
         t->calls++;
